@@ -283,30 +283,46 @@ func (r *Runner) checkData(obj int, data []byte, what string) {
 // noteTouch records a successful touch. The guarantee is counted from the lookup inside the call, so blocks the
 // call itself allocated afterwards (refreshing this or other objects) count against it: the baseline is the
 // NewBlock count at the start of the call. clean = the call allocated no block at all.
-func (r *Runner) noteTouch(obj int, newsAtStart int64) {
+func (r *Runner) noteTouch(obj int, newsAtStart int64, discardsAtStart float64) {
+	if r.syncDiscards() || r.discards.total() != discardsAtStart {
+		// the index reported a discarded entry during this very call (possibly after the object was looked
+		// up): C05 promises nothing for this touch
+		return
+	}
 	r.touched[obj] = newsAtStart
 	r.touchedClean[obj] = r.st.Alloc.News.Load() == newsAtStart
 }
 
 // expectSurvivor: C05 - obj was touched; is it still within its guaranteed window?
 func (r *Runner) mustSurvive(obj int) bool {
+	if r.syncDiscards() {
+		return false
+	}
 	p0, ok := r.touched[obj]
 	if !ok || r.corrupted {
 		return false
 	}
-	if d := r.discards.total(); d != r.discardsSeen {
-		// the index reported discards: the guarantee is off until the next touch
-		r.discardsSeen = d
-		r.touched = map[int]int64{}
+	if r.syncDiscards() {
 		return false
 	}
 	return r.st.Alloc.News.Load()-p0 <= int64(r.st.Cfg.BM.Old)
 }
 
+// syncDiscards looks at the index's discard metrics; when they moved, the C05 guarantee is off for everything
+// touched so far (the property holds "provided the index reports no discarded entries").
+func (r *Runner) syncDiscards() bool {
+	if d := r.discards.total(); d != r.discardsSeen {
+		r.discardsSeen = d
+		r.touched = map[int]int64{}
+		return true
+	}
+	return false
+}
+
 func (r *Runner) get(obj int) {
 	id := r.nextOp
 	r.nextOp++
-	writesBefore, newsBefore := r.devWrites(), r.st.Alloc.News.Load()
+	writesBefore, newsBefore, discardsBefore := r.devWrites(), r.st.Alloc.News.Load(), r.discards.total()
 	kind, data := consume(r.st.BA.Get(context.Background(), r.Digest(obj)))
 	// evaluated with the block count *after* the call: blocks the call itself allocated count against the guarantee
 	must := r.mustSurvive(obj)
@@ -347,7 +363,7 @@ func (r *Runner) get(obj int) {
 			// touched, nothing allocated since, yet this read wrote to the medium
 			r.oracle("C05", "repeating a read immediately wrote data again", fmt.Sprintf("Get of object %d", obj))
 		}
-		r.noteTouch(obj, newsBefore)
+		r.noteTouch(obj, newsBefore, discardsBefore)
 	case "not-found":
 		if must {
 			r.oracle("C05", "an object that was just read or reported present was lost before old_blocks+1 further blocks were allocated",
@@ -390,7 +406,7 @@ func (r *Runner) findMissing(objs []int) {
 		}
 	}
 	set := sb.Build()
-	newsAtStart := r.st.Alloc.News.Load()
+	newsAtStart, discardsAtStart := r.st.Alloc.News.Load(), r.discards.total()
 	missingSet, err := r.st.BA.FindMissing(context.Background(), set)
 	must := map[int]bool{}
 	for _, o := range objs {
@@ -502,7 +518,7 @@ func (r *Runner) findMissing(objs []int) {
 							fmt.Sprintf("FindMissing: object %d (instance %q)", o2, r.objs[o2].Instance))
 					}
 				}
-				r.noteTouch(o, newsAtStart)
+				r.noteTouch(o, newsAtStart, discardsAtStart)
 			}
 		}
 	} else if Code(err) == "err integrity" && !r.corrupted {
